@@ -357,7 +357,34 @@ def sec_power_operator(chk):
             chk.obligation(f"power_operator: {what} is refused", "discharged" if ok else "refuted", backend="native")
 
 
-SECTIONS = [sec_distributor, sec_dof, sec_analyze, sec_analyze_multi, sec_power_operator]
+def sec_analyze_sequence(chk):
+    """calls in sequence are independent: analysing sub-space 0 and then sub-space 1 of a product of the *same* harmonic space twice (and
+    the other way round, and with another binning in between) gives each time the result of a fresh call"""
+    import nifty.cl as ift
+    with objx.patched(complex_objects=False), objx.patched_bincount():
+        for hn, h in list(_harmonic_spaces(ift).items())[:3]:
+            dt = ift.DomainTuple.make((h, h))
+            f, fs = sym_field(ift, dt, "f", real=True)
+            sq = [x * x for x in fs]
+            bins = _binnings(ift, h)
+            seq = [(0, None), (1, None), (0, None)] + ([(1, bins["custom(2 inner bounds)"]), (0, bins["custom(2 inner bounds)"]), (1, None)] if "custom(2 inner bounds)" in bins else [])
+            for step, (space, bb) in enumerate(seq):
+                ps = ift.PowerSpace(h, bb)
+                pin = np.asarray(ps.pindex).ravel()
+                got = _runs(chk, f"analyze_sequence: {hn} x {hn}, call {step} (space {space}, {'custom' if bb else 'natural'} binning)",
+                            lambda: ift.power_analyze(f, spaces=space, binbounds=bb))
+                if got is None:
+                    continue
+                want_dom = tuple(ps if i == space else h for i in range(2))
+                ok = tuple(got.domain) == want_dom
+                chk.obligation(f"analyze_sequence: {hn} x {hn}, call {step} (space {space}, {'custom' if bb else 'natural'} binning): the result lives on the domain with sub-space {space} replaced by its power space",
+                               "discharged" if ok else "refuted", backend="identity", detail=str(got.domain)[:200])
+                if ok:
+                    all_equal(chk, f"analyze_sequence: {hn} x {hn}, call {step} (space {space}, {'custom' if bb else 'natural'} binning): power_analyze == volume-weighted bin average of the squared field",
+                              exprs(got.asnumpy()), _analysis_formula(dt, space, pin, ps.shape[0], sq))
+
+
+SECTIONS = [sec_distributor, sec_dof, sec_analyze, sec_analyze_multi, sec_analyze_sequence, sec_power_operator]
 
 
 def _native(ob):
